@@ -288,6 +288,11 @@ def judge(ctx, cssutils, sheet, src, assignment, preset, default_out, p_full):
     errs = syntax_errors(log)
     for n in names:
         ctx.count('pref.' + n)
+    if not eff.get('keepComments', True):
+        # "drop comments": none is left anywhere - also not inside selectors, media queries, values (the projection does not look there)
+        ctx.count('oracle.no-comment-left')
+        if any(t[0] == 'COMMENT' for t in cssutils.tokenize2.Tokenizer().tokenize(text, fullsheet=True)):
+            ctx.violation('comment-left', case, {'output': text[:400]}, features=feats)
     try:
         exp = norm(model(eff, p_full, variables_of(cssutils, sheet)))
     except Ambiguous as a:
@@ -370,6 +375,9 @@ EXTRA_SHEETS = [
     '@variables{pad:1px}@variables{pad:3px;W:1em}\na{padding:var(pad) var(W)}b{margin:var(PAD) var(w)}',
     '@variables{MainColor:#fff;gap:2px}\na{color:var(MainColor);margin:var(GAP) var(\\gap)}b{width:calc(var(gap) * 2);top:var(nope, 3px)}',
     '@variables{u:url(a.png);f:x, y}\na{background:var(u) no-repeat;font-family:var(f), serif}@media print{b{background-image:var(u)}}',
+    # empty rules and namespaces used by nothing else (keepEmptyRules x keepUsedNamespaceRulesOnly); queries holding what preferences touch
+    '@namespace p "urn:p";@namespace q "urn:q";@namespace r "urn:r";p|a{}q|b{top:0}e{}@media tv{r|c{}}',
+    '@import "a.css" tv and (max-width:0.50em);@media screen /*m*/ and (min-width:0.5em) and /*n*/ (color:#AABBCC){a /*s*/ b{top:0.5px /*v*/}}@media /*o*/ print{b{left:0}}',
     # DOMs that were edited after parsing: objects handed to the DOM instead of text
     ('@variables{c:red;w:2px}\na{top:0}@font-face{font-family:x}', 'property-objects'),
     ('@variables{c:red}\na{top:0}@media tv{b{left:0}}@page{margin:0}', 'property-objects'),
